@@ -142,6 +142,10 @@ def do_replay(prop: str, path: str) -> int:
             print("  theorem:", t)
         return 0
     print("what:", case.get("what"))
+    if "life" in case:
+        from .props import idlife
+        idlife.replay(case)
+        return 0
     if "history" in case:
         from . import gw
         h = gw.Hist.from_json(case["history"])
